@@ -246,7 +246,10 @@ def check_twoplain(case):
     a, b = case["nested"], case["plain"]
     fm = {"<func>f_" + a: (lambda t, y: -2 * y), "<func>f_" + b: (lambda t, y: -3 * y)}
     interp = NumpyInterpreter(dag, fm)
-    interp.set_up(t_start=0.0, dt_start=1.0, context={a: np.ones(case["len_nested"]), b: 2 * np.ones(case["len_plain"])})
+    a0 = [1.0] * case["len_nested"]
+    if case.get("nan_first") and len(a0) > 1:
+        a0[0] = float("nan")
+    interp.set_up(t_start=0.0, dt_start=1.0, context={a: np.array(a0), b: 2 * np.ones(case["len_plain"])})
     isteps = []
     for _ in range(case["steps"]):
         try:
@@ -267,7 +270,7 @@ def check_twoplain(case):
     fields = F.parse_state_type(text)
     nm = cg.name_manager
     init_args = [("dagrt_t", 0.0), ("dagrt_dt", 1.0),
-                 (nm.name_global("<state>" + a), [1.0] * case["len_nested"]),
+                 (nm.name_global("<state>" + a), a0),
                  (nm.name_global("<state>" + b), [2.0] * case["len_plain"])]
     init_args = [(k, v) for k, v in init_args if k in fields]
     shapes = {nm.name_global("<state>" + a): tuple(case["shape2d"])} if case.get("shape2d") else None
